@@ -714,12 +714,21 @@ def rule_counting_agreement(ctx, rid, r, rid_initial=None):
     # dispatch in the callback
     mod_cb = r.nodecb.module
     lockws = lock_withs(m, r.nodecb)
-    direct_puts = [c for c in put_sites(m, r.nodecb, r) if inside(mod_cb, c, succ_loop) and not any(inside(mod_cb, c, w) for w, _ in lockws)]
+    loop_puts = [c for c in put_sites(m, r.nodecb, r) if inside(mod_cb, c, succ_loop)]
+    direct_puts = [c for c in loop_puts if not any(inside(mod_cb, c, w) for w, _ in lockws)]
     if has_single:
         single_name = r.prep_names.get(r.single_index)
         member = f"{norm(succ_loop.target)} in {single_name}"
-        ok = len(direct_puts) == 1 and any(norm(t) == member and pol for t, pol in path_condition(mod_cb, stmt_of(mod_cb, direct_puts[0]), succ_loop)) \
-            and all(any(norm(t) == member and not pol for t, pol in path_condition(mod_cb, d, succ_loop)) for d in r.decs)
+
+        def side(node):
+            cs = [pol for t, pol in path_condition(mod_cb, node, succ_loop) if norm(t) == member]
+            return cs[0] if len(cs) == 1 else None
+        # every enqueue and every decrement in the loop sits on one side of the membership test: exactly one enqueue on the
+        # single-parent side (unconditional there), the decrements and every other enqueue on the counter side
+        sides = [side(stmt_of(mod_cb, c)) for c in loop_puts]
+        singles = [c for c, sd in zip(loop_puts, sides) if sd is True]
+        ok = None not in sides and len(singles) == 1 and len(path_condition(mod_cb, stmt_of(mod_cb, singles[0]), succ_loop)) == 1 \
+            and all(side(d) is False for d in r.decs) and len(loop_puts) >= 2
         ctx.ob(rid, f"{r.nodecb.short}/single-parent-dispatch", ok, loc(r.nodecb, succ_loop),
                "successors in the single-parent set are enqueued directly, all others go through the counter" if ok else
                "successor dispatch is not `if successor in <single-parent set> ... else <counter>`", head(succ_loop))
